@@ -262,8 +262,6 @@ class SlurmSuite(Suite):
     def _impl_runscript(self, case):
         from jade.hpc.hpc_submitter import HpcSubmitter
         from jade.models import HpcConfig, SubmitterParams, SubmissionGroup
-        hs = HpcSubmitter.__new__(HpcSubmitter)
-        hs._output = case["output"]
         params = SubmitterParams(
             hpc_config=HpcConfig(hpc_type="slurm", hpc={"account": "a"}),
             num_processes=case["numProcs"], verbose=case["verbose"], distributed_submitter=case["distributed"],
@@ -271,9 +269,39 @@ class SlurmSuite(Suite):
         group = SubmissionGroup(name="g", submitter_params=params)
         with scratch_dir() as d:
             f = d / "run.sh"
-            hs._create_run_script(case["configFile"], str(f), group)
+            try:
+                hs = HpcSubmitter.__new__(HpcSubmitter)      # cheap: the method only needs `_output` on the unchanged tree
+                hs._output = case["output"]
+                hs._create_run_script(case["configFile"], str(f), group)
+            except AttributeError:
+                # the method reads state set up by the constructor: build a real submitter for a two-group configuration in
+                # which the group under test comes SECOND and the first group has the opposite run options
+                hs = self._real_submitter(case, group, d)
+                hs._output = case["output"]
+                hs._create_run_script(case["configFile"], str(f), group)
             text = f.read_text()
         return text[:-1].split("\n")
+
+    def _real_submitter(self, case, group, d):
+        from jade.extensions.generic_command import GenericCommandConfiguration, GenericCommandParameters
+        from jade.hpc.hpc_submitter import HpcSubmitter
+        from jade.jobs.job_submitter import JobSubmitter
+        from jade.jobs.cluster import Cluster
+        from jade.models import HpcConfig, SubmitterParams, SubmissionGroup
+        other = SubmissionGroup(name="first", submitter_params=SubmitterParams(
+            hpc_config=HpcConfig(hpc_type="slurm", hpc={"account": "a"}),
+            num_processes=(None if case["numProcs"] else 3), verbose=not case["verbose"], distributed_submitter=not case["distributed"]))
+        config = GenericCommandConfiguration()
+        config.add_job(GenericCommandParameters(command="true", name="j0", submission_group="first"))
+        config.add_job(GenericCommandParameters(command="true", name="j1", submission_group="g"))
+        config.append_submission_group(other)
+        config.append_submission_group(group)
+        out = d / "out"
+        import jadeenv
+        jadeenv.no_repo_info()
+        mgr = JobSubmitter.create(config, output=str(out))
+        cluster = Cluster.create(str(out), mgr.config)
+        return HpcSubmitter(mgr.config, mgr._config_file, cluster, str(out))
 
     def _impl_retry(self, case):
         from jade.utils.run_command import run_command
